@@ -17,18 +17,21 @@
    Holders of the descriptor: the closer (the handle on which close() / take() is called),
    other user handles and operations in flight (Ops), which hold a clone from start to finish.
 
-   Named deviations of the pinned code (genuine defects, reproduced on the real crate by the
-   harness, recorded in known_findings.json):
-     SilentRelease   the Shared<Inner> held by a take() future is released WITHOUT the
-                     notification of Drop for SharedFd (a second take() returning None, a
-                     dropped close() future): a closer waiting for that last reference is
-                     never woken. Both variants.
-     DropRace        (sync only) Drop reads strong_count and waits, wakes, and only then the
-                     count is decremented: the closer re-polls before the decrement, or two
-                     droppers both read 3, or the dropper read waits before the swap.
-     ForgetsHandle   (file layer) File::close / Socket::close keep the handle in a
-                     ManuallyDrop inside the future: dropping the future before its first
-                     poll forgets the handle, the descriptor is never closed. *)
+   Named deviations (genuine defects, reproduced on the real crate by the harness):
+     SilentRelease   REPAIRED in /repo (switch SilentRelease = TRUE is the old code, kept for the
+                     control configs): the Shared<Inner> held by a take() future was released
+                     WITHOUT the notification of Drop for SharedFd (a second take() returning
+                     None, a dropped close() future): a closer waiting for that last reference
+                     was never woken. Both variants. Now the future holds a SharedFd and gives
+                     it up through Drop (sites fd.drop.check, wake, dec).
+     ForgetsHandle   REPAIRED in /repo (switch ForgetsHandle = TRUE is the old code): File::close /
+                     Socket::close kept the handle in a ManuallyDrop inside the future: dropping
+                     the future before its first poll forgot the handle, the descriptor was never
+                     closed. Now the unpolled future drops the handle like any other drop.
+     DropRace        OPEN, known finding (sync only): Drop reads strong_count and waits, wakes,
+                     and only then the count is decremented: the closer re-polls before the
+                     decrement, or two droppers both read 3, or the dropper read waits before
+                     the swap. Variant "fixed" is the protocol that repairs it. *)
 EXTENDS Naturals, FiniteSets, Sequences, TLC
 
 CONSTANTS
@@ -40,7 +43,9 @@ CONSTANTS
   AllowTake2,   \* another user handle may call take() as well (second take)
   AllowCancel,  \* the closer's future may be dropped while pending
   AllowSpurious,\* the executor may re-poll the closer without a wake
-  FileLayer     \* close() of compio-fs / compio-net: the unpolled future forgets the handle
+  FileLayer,    \* close() of compio-fs / compio-net rather than the raw SharedFd::take()
+  SilentRelease,\* TRUE = code before the repair: a take() future releases its reference silently
+  ForgetsHandle \* TRUE = code before the repair: the unpolled close() future forgets the handle
 
 Universe == <<"h1", "h2", "h3", "o1", "o2">>
 Idx(h) == CHOOSE i \in 1..Len(Universe) : Universe[i] = h
@@ -54,41 +59,42 @@ VARIABLES
   waits,    \* Inner.waits
   slot,     \* a waker is stored in Inner.waker
   woken,    \* the closer's task was woken and has not been polled since
-  hs,       \* per holder: "none" "live" "wake" "dec" "t2" "fchk" "gone"
-  pcC,      \* closer: "idle" "u1" "reg" "u2" "pending" "done" "cancelled" "forgot"
+  hs,       \* per holder: "none" "live" "wake" "dec" "t2" "t2d" "fchk" "gone"
+  pcC,      \* closer: "idle" "u1" "reg" "u2" "pending" "done" "dchk" "dwake" "ddec" "cancelled" "forgot"
+  takers,   \* ghost: holders that called take() themselves (labels the generated programs)
   closed,   \* how often the owned descriptor T left the Shared (close or hand-out)
   silentLast \* ghost: the last reference but the closer's was released silently
-vars == <<count, waits, slot, woken, hs, pcC, closed, silentLast>>
+vars == <<count, waits, slot, woken, hs, pcC, takers, closed, silentLast>>
 
-HState == {"none", "live", "wake", "dec", "t2", "fchk", "gone"}
-CState == {"idle", "u1", "reg", "u2", "pending", "done", "cancelled", "forgot"}
+HState == {"none", "live", "wake", "dec", "t2", "t2d", "fchk", "gone"}
+CState == {"idle", "u1", "reg", "u2", "pending", "done", "dchk", "dwake", "ddec", "cancelled", "forgot"}
 
 TypeOK ==
   /\ count \in 0..(Cardinality(Handles) + 1)
   /\ waits \in BOOLEAN /\ slot \in BOOLEAN /\ woken \in BOOLEAN /\ silentLast \in BOOLEAN
   /\ hs \in [Handles -> HState]
-  /\ pcC \in CState
+  /\ pcC \in CState /\ takers \subseteq Handles
   /\ closed \in 0..2
 
 Init ==
   /\ count = Cardinality(InitLive) + 1
   /\ waits = FALSE /\ slot = FALSE /\ woken = FALSE /\ silentLast = FALSE
   /\ hs = [h \in Handles |-> IF h \in InitLive THEN "live" ELSE "none"]
-  /\ pcC = "idle"
+  /\ pcC = "idle" /\ takers = {}
   /\ closed = 0
 
 -----------------------------------------------------------------------------
 (* who is in the middle of a method *)
-MidH(h) == hs[h] \in {"wake", "dec", "t2", "fchk"}
-MidC == pcC \in {"u1", "reg", "u2"}
+MidH(h) == hs[h] \in {"wake", "dec", "t2", "t2d", "fchk"}
+MidC == pcC \in {"u1", "reg", "u2", "dchk", "dwake", "ddec"}
 (* unsync: a method runs to its end before any other holder acts *)
 Quiet(x) == Variant = "unsync" =>
               /\ \A g \in Handles \ {x} : ~MidH(g)
               /\ (x # "C" => ~MidC)
 
-Holds(h) == hs[h] \in {"live", "wake", "dec", "t2"}       \* contributes to count
+Holds(h) == hs[h] \in {"live", "wake", "dec", "t2", "t2d"}       \* contributes to count
 Released(h) == hs[h] \in {"none", "gone", "fchk"}
-CloserHolds == pcC \in {"idle", "u1", "reg", "u2", "pending", "forgot"}
+CloserHolds == pcC \in {"idle", "u1", "reg", "u2", "pending", "dchk", "dwake", "ddec", "forgot"}
 OpsUsing == {o \in Ops : hs[o] = "live"}
 
 Wake == /\ woken' = (woken \/ slot) /\ slot' = FALSE     \* WakerSlot::wake = take + wake
@@ -108,21 +114,22 @@ Clone(src, h) ==
   /\ h \in Fresh(IF h \in Ops THEN Ops ELSE Handles \ Ops)
   /\ hs' = [hs EXCEPT ![h] = "live"]
   /\ count' = count + 1
-  /\ UNCHANGED <<waits, slot, woken, pcC, closed, silentLast>>
+  /\ UNCHANGED <<waits, slot, woken, pcC, takers, closed, silentLast>>
 
-(* Drop for SharedFd, site fd.drop.check: strong_count == 2 && waits *)
+(* Drop for SharedFd, site fd.drop.check: strong_count == 2 && waits.
+   Also the tail of a take() that resolved to None (repaired code: the future drops its SharedFd) *)
 DropCheck(h) ==
   /\ Variant # "fixed" /\ Quiet(h)
-  /\ hs[h] = "live"
+  /\ hs[h] \in {"live", "t2d"}
   /\ hs' = [hs EXCEPT ![h] = IF count = 2 /\ waits THEN "wake" ELSE "dec"]
-  /\ UNCHANGED <<count, waits, slot, woken, pcC, closed, silentLast>>
+  /\ UNCHANGED <<count, waits, slot, woken, pcC, takers, closed, silentLast>>
 
 (* site fd.drop.wake: self.0.waker.wake() *)
 DropWake(h) ==
   /\ hs[h] = "wake" /\ Quiet(h)
   /\ Wake
   /\ hs' = [hs EXCEPT ![h] = "dec"]
-  /\ UNCHANGED <<count, waits, pcC, closed, silentLast>>
+  /\ UNCHANGED <<count, waits, pcC, takers, closed, silentLast>>
 
 (* site fd.drop.dec: end of the Drop body, the field Shared<Inner> is dropped *)
 DropDec(h) ==
@@ -130,24 +137,34 @@ DropDec(h) ==
   /\ Unref
   /\ hs' = [hs EXCEPT ![h] = "gone"]
   /\ silentLast' = FALSE
-  /\ UNCHANGED <<waits, slot, woken, pcC>>
+  /\ UNCHANGED <<waits, slot, woken, pcC, takers>>
 
 (* second take() by another handle, site fd.take.swap: waits is already set, the future
-   resolves to None (site fd.take.none) ... *)
+   resolves to None ... *)
 T2Swap(h) ==
   /\ AllowTake2 /\ Quiet(h)
   /\ h \notin Ops /\ hs[h] = "live" /\ waits
   /\ hs' = [hs EXCEPT ![h] = "t2"]
+  /\ takers' = takers \cup {h}
   /\ UNCHANGED <<count, waits, slot, woken, pcC, closed, silentLast>>
 
-(* ... and the Shared<Inner> captured by the future is dropped as a plain Rc/Arc.
-   Deviation SilentRelease: no wake. In the fixed protocol the release notifies. *)
+(* ... site fd.take.none. Repaired code: nothing happens here, the SharedFd captured by the
+   future is dropped next (DropCheck ...). In the fixed protocol the release notifies. *)
+T2None(h) ==
+  /\ ~SilentRelease /\ Variant # "fixed"
+  /\ hs[h] = "t2" /\ Quiet(h)
+  /\ hs' = [hs EXCEPT ![h] = "t2d"]
+  /\ UNCHANGED <<count, waits, slot, woken, pcC, takers, closed, silentLast>>
+
+(* Old code (deviation SilentRelease): the Shared<Inner> captured by the future is dropped
+   as a plain Rc/Arc, no wake. Also the release step of the fixed protocol (which notifies). *)
 T2Release(h) ==
+  /\ SilentRelease \/ Variant = "fixed"
   /\ hs[h] = "t2" /\ Quiet(h)
   /\ Unref
   /\ hs' = [hs EXCEPT ![h] = IF Variant = "fixed" /\ count > 1 THEN "fchk" ELSE "gone"]
   /\ silentLast' = (Variant # "fixed" /\ count = 2)
-  /\ UNCHANGED <<waits, slot, woken, pcC>>
+  /\ UNCHANGED <<waits, slot, woken, pcC, takers>>
 
 (* fixed protocol: decrement first (the notification cell outlives the descriptor) ... *)
 FDropDec(h) ==
@@ -156,14 +173,14 @@ FDropDec(h) ==
   /\ Unref
   /\ hs' = [hs EXCEPT ![h] = IF count > 1 THEN "fchk" ELSE "gone"]
   /\ silentLast' = FALSE
-  /\ UNCHANGED <<waits, slot, woken, pcC>>
+  /\ UNCHANGED <<waits, slot, woken, pcC, takers>>
 
 (* ... then read waits and wake *)
 FDropNotify(h) ==
   /\ hs[h] = "fchk"
   /\ (IF waits THEN Wake ELSE UNCHANGED <<woken, slot>>)
   /\ hs' = [hs EXCEPT ![h] = "gone"]
-  /\ UNCHANGED <<count, waits, pcC, closed, silentLast>>
+  /\ UNCHANGED <<count, waits, pcC, takers, closed, silentLast>>
 
 -----------------------------------------------------------------------------
 (* the closer: first poll of take(), site fd.take.swap: waits.swap(true) *)
@@ -171,7 +188,7 @@ CSwap ==
   /\ pcC = "idle" /\ Quiet("C")
   /\ waits' = TRUE
   /\ pcC' = "u1"
-  /\ UNCHANGED <<count, slot, woken, hs, closed, silentLast>>
+  /\ UNCHANGED <<count, slot, woken, hs, takers, closed, silentLast>>
 
 TryUnwrap(next) ==
   IF count = 1 THEN /\ count' = 0 /\ closed' = closed + 1 /\ pcC' = "done"
@@ -181,60 +198,83 @@ TryUnwrap(next) ==
 CUnwrap1 ==
   /\ pcC = "u1" /\ Quiet("C")
   /\ TryUnwrap("reg")
-  /\ UNCHANGED <<waits, slot, woken, hs, silentLast>>
+  /\ UNCHANGED <<waits, slot, woken, hs, takers, silentLast>>
 
 (* site fd.take.register *)
 CRegister ==
   /\ pcC = "reg" /\ Quiet("C")
   /\ slot' = TRUE
   /\ pcC' = "u2"
-  /\ UNCHANGED <<count, waits, woken, hs, closed, silentLast>>
+  /\ UNCHANGED <<count, waits, woken, hs, takers, closed, silentLast>>
 
 (* site fd.take.unwrap2; failing means Poll::Pending *)
 CUnwrap2 ==
   /\ pcC = "u2" /\ Quiet("C")
   /\ TryUnwrap("pending")
-  /\ UNCHANGED <<waits, slot, woken, hs, silentLast>>
+  /\ UNCHANGED <<waits, slot, woken, hs, takers, silentLast>>
 
 (* the executor polls the woken task again *)
 CRepoll ==
   /\ pcC = "pending" /\ woken /\ Quiet("C")
   /\ woken' = FALSE
   /\ pcC' = "u1"
-  /\ UNCHANGED <<count, waits, slot, hs, closed, silentLast>>
+  /\ UNCHANGED <<count, waits, slot, hs, takers, closed, silentLast>>
 
 (* a poll nobody asked for (select!, join!, a busy executor); never required to happen *)
 CSpurious ==
   /\ AllowSpurious
   /\ pcC = "pending" /\ ~woken /\ Quiet("C")
   /\ pcC' = "u1"
-  /\ UNCHANGED <<count, waits, slot, woken, hs, closed, silentLast>>
+  /\ UNCHANGED <<count, waits, slot, woken, hs, takers, closed, silentLast>>
 
-(* the pending future is dropped: its Shared<Inner> is released like T2Release *)
+(* the closer's reference is given up without closing. Old code and fixed protocol: one silent
+   decrement (nobody waits for the closer itself). Repaired code: the SharedFd inside the future
+   is dropped: CDropCheck / CDropWake / CDropDec (sites fd.drop.check, wake, dec). *)
+GiveUp ==
+  IF SilentRelease \/ Variant = "fixed"
+    THEN /\ Unref /\ pcC' = "cancelled"
+    ELSE /\ pcC' = "dchk" /\ UNCHANGED <<count, closed>>
+
+(* the pending future is dropped *)
 CCancel ==
   /\ AllowCancel
   /\ pcC = "pending" /\ Quiet("C")
-  /\ Unref
-  /\ pcC' = "cancelled"
-  /\ UNCHANGED <<waits, slot, woken, hs, silentLast>>
+  /\ GiveUp
+  /\ UNCHANGED <<waits, slot, woken, hs, takers, silentLast>>
 
-(* the future returned by close() is dropped before its first poll.
-   FileLayer: deviation ForgetsHandle, the ManuallyDrop<File> inside is never dropped.
-   Raw SharedFd::take(): the captured Shared<Inner> is released (silently; nobody waits). *)
+(* the future returned by close() / take() is dropped before its first poll.
+   Old file layer (deviation ForgetsHandle): the ManuallyDrop<File> inside is never dropped. *)
 CDropUnpolled ==
   /\ AllowCancel
   /\ pcC = "idle" /\ Quiet("C")
-  /\ (IF FileLayer THEN /\ pcC' = "forgot" /\ UNCHANGED <<count, closed>>
-                   ELSE /\ pcC' = "cancelled" /\ Unref)
-  /\ UNCHANGED <<waits, slot, woken, hs, silentLast>>
+  /\ (IF FileLayer /\ ForgetsHandle THEN /\ pcC' = "forgot" /\ UNCHANGED <<count, closed>>
+                                     ELSE GiveUp)
+  /\ UNCHANGED <<waits, slot, woken, hs, takers, silentLast>>
+
+CDropCheck ==
+  /\ pcC = "dchk" /\ Quiet("C")
+  /\ pcC' = IF count = 2 /\ waits THEN "dwake" ELSE "ddec"
+  /\ UNCHANGED <<count, waits, slot, woken, hs, takers, closed, silentLast>>
+
+CDropWake ==
+  /\ pcC = "dwake" /\ Quiet("C")
+  /\ Wake
+  /\ pcC' = "ddec"
+  /\ UNCHANGED <<count, waits, hs, takers, closed, silentLast>>
+
+CDropDec ==
+  /\ pcC = "ddec" /\ Quiet("C")
+  /\ Unref
+  /\ pcC' = "cancelled"
+  /\ UNCHANGED <<waits, slot, woken, hs, takers, silentLast>>
 
 -----------------------------------------------------------------------------
 HNext(h) == \/ DropCheck(h) \/ DropWake(h) \/ DropDec(h)
-            \/ T2Swap(h) \/ T2Release(h)
+            \/ T2Swap(h) \/ T2None(h) \/ T2Release(h)
             \/ FDropDec(h) \/ FDropNotify(h)
             \/ \E src \in (Handles \ Ops) \cup {"C"} : Clone(src, h)
 CNext == CSwap \/ CUnwrap1 \/ CRegister \/ CUnwrap2 \/ CRepoll \/ CSpurious \/ CCancel
-         \/ CDropUnpolled
+         \/ CDropUnpolled \/ CDropCheck \/ CDropWake \/ CDropDec
 Next == CNext \/ \E h \in Handles : HNext(h)
 
 Spec == Init /\ [][Next]_vars
@@ -242,8 +282,9 @@ Spec == Init /\ [][Next]_vars
 (* a method that has started finishes; the executor polls a woken task; nothing forces the
    user to drop, clone, close, cancel or poll spuriously *)
 Fairness ==
-  /\ \A h \in Handles : WF_vars(DropWake(h) \/ DropDec(h) \/ T2Release(h) \/ FDropNotify(h))
-  /\ WF_vars(CUnwrap1 \/ CRegister \/ CUnwrap2 \/ CRepoll)
+  /\ \A h \in Handles : WF_vars(DropWake(h) \/ DropDec(h) \/ T2None(h) \/ T2Release(h) \/ FDropNotify(h)
+                                  \/ (hs[h] = "t2d" /\ DropCheck(h)))
+  /\ WF_vars(CUnwrap1 \/ CRegister \/ CUnwrap2 \/ CRepoll \/ CDropCheck \/ CDropWake \/ CDropDec)
 FairSpec == Spec /\ Fairness
 
 -----------------------------------------------------------------------------
@@ -275,6 +316,8 @@ Live == AllReleased ~> Finished
 LiveModuloSilent == AllReleased ~> (Finished \/ (Stranded /\ silentLast))
 (* unsync safety form of the same statement: a quiescent closer that is alone is woken or done *)
 NoStrandUnlessSilent == (Stranded /\ count = 1 /\ ~MidC) => silentLast
+(* repaired single-threaded code: a closer that is alone is never left waiting without a wake-up *)
+NoStrand == ~(Stranded /\ count = 1 /\ ~MidC)
 
 (* leak freedom as liveness: once every holder is gone the descriptor is closed
    (violated exactly by the deviation ForgetsHandle of the file layer) *)
